@@ -509,7 +509,7 @@ theorem pulled_file_is_producers_bytes (c : Nat) (hc : 1 ≤ c) (evs : List Ev) 
       s.wire = toWire 1 (responses Gen.svsFacts sv msgs n))
     (hopen : s.openOk = true) (htags : Commit.tagsOk p s = true)
     (hver : p.verifies = true → s.verifyOk = true) (hren : s.renameOk = true) (hsync : s.syncOk = true)
-    (hstop : s.stop = none) (hwf : s.writeFault = none) (htr : p.hasTrailer = false)
+    (hstop : s.stop = none) (hwf : s.writeFault = none) (htr : p.hasTrailer = false) (hcreate : s.createOk = true)
     (hdec : (if p.decodes && s.comp == .zstd then codec.dec (evBytes evs) else some (evBytes evs)) = some lg) :
     (Commit.run Commit.canonical p s codec).ret = .ok ∧
     Commit.runOps fs₀ (Commit.run Commit.canonical p s codec).ops = { dest := some lg, tmp := none } := by
@@ -526,8 +526,8 @@ theorem pulled_file_is_producers_bytes (c : Nat) (hc : 1 ≤ c) (evs : List Ev) 
       have : (if p.usesWriteFile = true then (none : Option Nat) else none) = none := by split <;> rfl
       rw [this, hw]
       exact h2
-    simp only [hopen, htags, hv, hren, hsync, Bool.and_self, if_true, hpay, hdec, htr, Bool.false_eq_true,
-      if_false, hwf, Commit.fit]
+    simp only [hopen, Commit.preOk, htags, hcreate, hv, hren, hsync, Bool.and_self, if_true, hpay, hdec, htr,
+      Bool.false_eq_true, if_false, hwf, Commit.fit]
   obtain ⟨a, b⟩ := Commit.run_of_expected_some p s codec lg hexp
   rw [a]
   exact ⟨rfl, by rw [Commit.run_successOps, b]⟩
